@@ -242,6 +242,26 @@ def r02_3(ctx: Ctx):
 
 
 # ----------------------------------------------------------------------------
+def r02_3_no_reset(ctx: Ctx):
+    """M is the largest slope over every pair *seen so far*: it is never re-initialised after construction."""
+    rid = 'R02.3'
+    roles = C.roles_of(ctx)
+    Mf = m_field(ctx)
+    for m in roles.attr_writers(Mf, roles.method_cls):
+        node = m.node
+        v = getattr(node, 'value', None)
+        lit = isinstance(v, (ast.List, ast.ListComp, ast.BinOp)) and not any(
+            isinstance(x, (ast.Attribute, ast.Subscript, ast.Call)) and not
+            (isinstance(x, ast.Call) and isinstance(x.func, ast.Name) and x.func.id in ('range', 'len'))
+            for x in ast.walk(v.elt if isinstance(v, ast.ListComp) else v))
+        if lit:
+            ctx.fail(rid, m.func.short, m.loc(),
+                     f'{m.text()[:60]} re-initialises the Hoelder estimate outside the constructor: slopes seen '
+                     f'before are forgotten, so M no longer is the largest slope over every neighbouring pair seen '
+                     f'so far (pairs that were split since then cannot be recovered from the current partition)',
+                     key=f'{rid}::{m.func.short}::estimate-reset', detail={'decidable': True})
+
+
 def r02_4(ctx: Ctx):
     rid = 'R02.4'
     ctx.rule(rid, 'new point: (x_l+x_r)/2 - sign(z_r-z_l)*(|z_r-z_l|/M)^N/(2r) for equal indices, midpoint '
@@ -816,6 +836,8 @@ def check(ctx: Ctx):
     roles = C.roles_of(ctx)
     if C.want(ctx, 'R02.9'):
         r02_9(ctx)
+    if C.want(ctx, 'R02.3'):
+        r02_3_no_reset(ctx)
     for rid, fn in (('R02.1', r02_1), ('R02.2', r02_2), ('R02.3', r02_3), ('R02.4', r02_4), ('R02.5', r02_5),
                     ('R02.6', r02_6), ('R02.7', r02_7_8)):
         if C.want(ctx, rid) or (rid == 'R02.7' and C.want(ctx, 'R02.8')):
